@@ -377,6 +377,9 @@ func Check[C any](t *testing.T, s Spec[C]) {
 		col.record(cj, o)
 		if o.V != nil {
 			col.mu.Lock()
+			if !col.failed {
+				fmt.Fprintf(os.Stderr, "FIRST-VIOLATION property=%s kind=%s: %s\n", s.Property, o.V.Kind, o.V.Msg)
+			}
 			col.failed = true
 			col.lastFail = cj
 			col.lastViol = o.V
